@@ -675,6 +675,19 @@ def r6(chk):
             ok = got not in (True, False) and aud.cond_equiv(got, want)[0] and nd == f"RaireNode([{dv},{cv}])" \
                 and norm(outer.iter) == "contest.candidates" and norm(inner.iter) == "contest.candidates" \
                 and not [x for x in walk_local(outer) if isinstance(x, (ast.Break, ast.Return))]
+    # "contest.candidates" and the winner compared with are the ones *handed in*: the parameters are not re-bound (a pruned copy of
+    # the contest -- candidates nobody ranked, say -- leaves their elimination orders uncontradicted)
+    cpar = params[0] if params else "contest"
+    rebound = sorted({n_.id for n_ in walk_local(fn) if isinstance(n_, ast.Name) and isinstance(n_.ctx, (ast.Store, ast.Del))
+                      and n_.id in (cpar, wpar)} |
+                     {norm(t_)[:40] for x in walk_local(fn) if isinstance(x, (ast.Assign, ast.AugAssign))
+                      for t_ in (x.targets if isinstance(x, ast.Assign) else [x.target])
+                      if isinstance(t_, (ast.Attribute, ast.Subscript)) and norm(t_).startswith(f"{cpar}.candidates")} |
+                     {norm(c_)[:40] for c_ in walk_local(fn) if isinstance(c_, ast.Call) and isinstance(c_.func, ast.Attribute)
+                      and norm(c_.func.value) == f"{cpar}.candidates" and c_.func.attr in ("remove", "pop", "clear", "append", "extend", "insert", "sort", "reverse")})
+    if rebound:
+        ok = False
+        detail["rebound"] = rebound
     chk.ob("C04.R6", f"{RA}:compute_raire_assertions", "initial-frontier-has-every-alternative-winner", ok,
            "before the search starts the frontier holds the node [d, c] for every candidate c other than the reported winner passed "
            "in and every candidate d other than c", node=ins[0] if ins else fn, strength="N", **detail)
